@@ -1501,7 +1501,15 @@ impl<'a> Parser<'a> {
         for enclosing in (0..self.compilers.len() - 1).rev() {
             let current = enclosing + 1;
             // Try and resolve the local in the enclosing compiler's scope.
-            if let Ok(index) = self.compilers[enclosing].resolve_local(name) {
+            let resolved = self.compilers[enclosing].resolve_local(name);
+            if let Err(CompilerError::ReadVarInInitialiser) = resolved {
+                // The name is that of a local whose own initialiser this function is part of: the
+                // same error as for a direct read (and not a reason to look further out - whatever
+                // is found there is not the variable the source names).
+                self.compiler_error(CompilerError::ReadVarInInitialiser);
+                return None;
+            }
+            if let Ok(index) = resolved {
                 // If we found it, mark as captured and propagate the upvalue to the compilers that
                 // are enclosed by the current one.
                 self.compilers[enclosing].locals[index as usize].is_captured = true;
